@@ -51,6 +51,9 @@ PAYLOADS = [
     # dotted names whose prefix is an importable module other than numpy: resolving them by import runs module code
     ('modname', 'colorsys.float32'), ('modname', 'sched.uint8'), ('modname', 'netrc.float64'), ('modname', 'tabnanny.float32'),
     ('modname', 'pyclbr.int32'), ('modname', 'plistlib.float32'), ('modname', 'wave.uint8'), ('modname', 'xml.dom.minidom.float32'),
+    # a sibling of the dataset directory whose name STARTS WITH the dataset directory's name: inside for a string-prefix test,
+    # outside for the file system
+    ('path', '../../../{rootname}_q/r2d2'), ('path', '../../../{rootname}.bak/x'), ('path', '../../../{rootname}2'),
     ('path', '../../../../{canary_rel}'), ('path', '/{canary_abs}'), ('path', '..'), ('path', 'a/../../b'),
     ('num', '1e400'), ('num', '-0'), ('num', '007'), ('num', '99999999999999999999999'), ('num', 'nan'), ('num', '0x10'),
     ('misc', ''), ('misc', 'ünï çødé'), ('misc', 'A' * 300), ('misc', '# kapture format: 9.9'), ('misc', '%s%s%n'),
@@ -104,7 +107,12 @@ def gen_case(rng):
         c['route'] = 'copy:skip'
         c['clash'] = False
         c['params'] = {'kp': None, 'desc': None, 'gf': None, 'descMetric': 'L2', 'gfMetric': 'L2'}
-        return {'path': 'upgrade', 'base': c, 'pick': rng.randrange(10 ** 6), 'payload': payload, 'pclass': kind}
+        name_only = rng.random() < 0.4
+        if name_only:
+            # the feature NAME of a 1.0 descriptor file becomes a folder name on upgrade: aim path payloads at it
+            kind, payload = rng.choice([pp for pp in PAYLOADS if pp[0] == 'path'])
+        return {'path': 'upgrade', 'base': c, 'pick': rng.randrange(10 ** 6), 'payload': payload, 'pclass': kind,
+                'name_only': name_only}
     opts = kgen.Opts(p_part=0.8, id_pool=3, fancy_ids=False, ts_style='small', max_rows=3, image_pool=4, dtypes=['float32'])
     return {'path': 'load', 'd': kgen.gen_dataset(rng, opts), 'pick': rng.randrange(10 ** 6), 'payload': payload, 'pclass': kind,
             'dtype_only': rng.random() < 0.35}
@@ -143,7 +151,12 @@ def mutate_field(root, case, canary):
     p = os.path.join(root, rel)
     lines = open(p).read().split('\n')
     data_idx = [i for i, l in enumerate(lines) if l.strip() and not l.startswith('#')]
-    payload = fill(case['payload'], canary)
+    payload = fill(case['payload'], canary).replace('{rootname}', os.path.basename(os.path.normpath(root)))
+    if case.get('name_only') and cfg:
+        rel = rng.choice(cfg)
+        p = os.path.join(root, rel)
+        lines = open(p).read().split('\n')
+        data_idx = [i for i, l in enumerate(lines) if l.strip() and not l.startswith('#')]
     if not data_idx or (case['payload'].startswith('# kapture') and rng.random() < 0.7):
         lines[0] = payload if payload.startswith('#') else '# kapture format: ' + payload
         where = (rel, 0, -1, False)
@@ -153,6 +166,8 @@ def mutate_field(root, case, canary):
         col = rng.randrange(len(fields))
         if case.get('dtype_only') and rel in cfg:
             col = 1
+        if case.get('name_only') and rel in cfg:
+            col = 0
         fields[col] = payload.replace(',', ';').replace('\n', ' ')
         lines[i] = ', '.join(fields)
         where = (rel, i, col, rel in cfg and col == 1)
